@@ -103,8 +103,8 @@ class ChannelItem(EFLRItem, DimensionedItem):
     def cast_dtype(self, dt: Union[numpy_dtype_type, None]) -> None:
         """Set or remove channel cast dtype."""
 
-        self._derived_from_data.discard('cast_dtype')
         self._set_cast_dtype(dt)
+        self._derived_from_data.discard('cast_dtype')  # (only once the new value has been accepted)
 
     def _set_cast_dtype(self, dt: Union[numpy_dtype_type, None]) -> None:
         """Check that the provided cast dtype is acceptable and set it in the Channel."""
